@@ -88,11 +88,11 @@ def install(reg):
         n = lift(x.shape[d])
         sh = lift(shifts)
 
-        def fn(*idx, _x=x, _d=d):
+        def fn(*idx, _xf=x.fn, _d=d):
             idx = list(idx)
             # out[i] = in[(i - shift) mod n]   (n > 0 on any inhabited index)
             idx[_d] = V.py_mod(idx[_d] - sh, n)
-            return _x.fn(*idx)
+            return _xf(*idx)
 
         return tensor(x.shape, fn, x.kind)
 
@@ -105,12 +105,12 @@ def install(reg):
         base = xs[0]
         d = dim % (base.ndim + 1)
 
-        def fn(*idx, _xs=xs, _d=d):
+        def fn(*idx, _xs=[x.fn for x in xs], _d=d):
             idx = list(idx)
             j = idx.pop(_d)
-            r = _xs[-1].fn(*idx)
+            r = _xs[-1](*idx)
             for q in range(len(_xs) - 2, -1, -1):
-                r = ite(j == q, _xs[q].fn(*idx), r)
+                r = ite(j == q, _xs[q](*idx), r)
             return r
 
         shape = list(base.shape)
